@@ -34,7 +34,7 @@ RT_CLASSES = ["short-plain", "short-dashed", "short-multi-dashed", "short-with-t
               "version-leading-zeros", "version-freeform", "version-ends-like-type", "version-edge-blank-or-foreign-digit", "with-bp", "bp-short-dashed", "bp-type-nonga"] + \
              ["type-" + t for t in domains.RELEASE_TYPES]
 CLASS_FLOORS = dict((c, 10) for c in RT_CLASSES)
-CLASS_FLOORS.update({"enumerated-non-ascii-or-blank": 1000, "version-edge-blank-or-foreign-digit": 10, "refusal-short": 10, "refusal-version": 10, "refusal-type": 10, "refusal-bp": 10,
+CLASS_FLOORS.update({"create-unknown-valid-type": 50, "enumerated-non-ascii-or-blank": 1000, "version-edge-blank-or-foreign-digit": 10, "refusal-short": 10, "refusal-version": 10, "refusal-type": 10, "refusal-bp": 10,
                      "create-accepted": 10})
 
 
@@ -374,6 +374,16 @@ def run_shard(ctx):
             ctx.case_done(c, nontrivial=nontriv)
             if i < 3:
                 ctx.sample({"round-trip": c, "release_id": rid})
+        elif i % 8 == 3:
+            # a type the predicate ACCEPTS but that is not one of the known release types (dashed or not): the statement
+            # ties create_release_id to the predicates, not to the table - it must be created (the round trip is only
+            # claimed for known types and is not judged here)
+            c = gen_rt(rng, "with-bp" if rng.random() < 0.5 else None)
+            slot = rng.choice(["type"] + (["bp_type"] if c.get("bp_short") else []))
+            c[slot] = rng.choice(["a-a", "a-1", "fast-track", "e4s-testing", "x", "x1", "beta", "updates-testing-2", "ga-1", "z9-z9-z9"])
+            ctx.count("create-unknown-valid-type")
+            check_create(ctx, pm, c)
+            ctx.case_done({"unknown-valid-type": c})
         else:
             # one part replaced by a refused string
             c = gen_rt(rng, "with-bp" if rng.random() < 0.5 else None)
